@@ -81,8 +81,9 @@ def run_case(ctx, P, stream, idx):
     # where the exposed package lives: installed (site-packages of the venv) or a source checkout on PYTHONPATH
     checkout = ctx.rng(stream, idx, "where-src").random() < 0.35
     if checkout:
-        purelib = os.path.join(root, "case%d" % idx, "src")
-    pkg = "pkg%d_%d" % (ctx.seed, idx)
+        purelib = os.path.join(root, "case%d" % idx, ctx.rng(stream, idx, "src-dir").choice(("src", "src", "Src", "MyLib")))
+    # (letter case is part of a name: CamelCase distributions exist, and so do capitals in a checkout's path)
+    pkg = ("Pkg%dKit_%d" if ctx.rng(stream, idx, "pkg-case").random() < 0.3 else "pkg%d_%d") % (ctx.seed, idx)
     case_dir = os.path.join(root, "case%d" % idx)
     os.makedirs(case_dir)
     log = tempfile.mktemp(prefix="vcdd-c20-audit-")
@@ -206,6 +207,20 @@ def run_case(ctx, P, stream, idx):
                     mech = "exmod.output-dir-named-like-target-module-writes-parent-init|"
                 P.deviation(mech + "exmod.real-run-escaped-output-dir|%s" % feats,
                             "paths outside the output directory changed: %r" % outside[:6], dict(w, paths=outside[:20]))
+            # directories are made without an open(): the audit log's os.mkdir events are held to the same confinement
+            made = [e for e in events if e["event"] == "os.mkdir"]
+            P.count("audit.events.mkdir", len(made))
+            out_real = os.path.realpath(out)
+            esc_dirs = []
+            for e in made:
+                try:
+                    d_ = os.path.realpath(os.path.join(case_dir, ast.literal_eval(e["args"][0])))
+                except Exception:
+                    continue
+                if not (d_ == out_real or d_.startswith(out_real + os.sep) or out_real.startswith(d_ + os.sep)):
+                    esc_dirs.append(d_)
+            if esc_dirs:
+                dev("real-run-mkdir-outside", "directories made outside the output directory: %r" % esc_dirs[:4], dirs=esc_dirs[:10])
             after_src = fsnap.snapshot(os.path.join(purelib, pkg))
             if where == "inside":
                 after_src = {k: v for k, v in after_src.items() if not k.startswith("_generated") and k != "./"}
